@@ -103,6 +103,8 @@ def check_C09(tier, seed, res, replay=None):
         base.append(present_nfa_pair({"id": ["r", i], "A": A, "B": B, "src": "random"}, rng))
     cases = []
     for c in base:
+        if rng.random() < 0.04:
+            alias_b(c, rng)
         p = rng.choice([0, 0, 1, 3, 7])
         for sel in ("anti", "cd", "cb"):
             cases.append(dict(c, op="faincl", sel=sel, perturb=p))
@@ -174,10 +176,21 @@ def with_pre(d, rng):
     return d
 
 
+def alias_b(d, rng):
+    """the same object as both operands, or a copy sharing its storage (value: B = A); no pre-operations"""
+    d["B"] = json.loads(json.dumps(d["A"]))
+    d["bmode"] = rng.choice(["alias", "copy"])
+    d.pop("preA", None)
+    d.pop("preB", None)
+
+
 def c10_variants(c, rng):
     out = []
     for kind in ("union", "isect"):
-        out.append(with_pre(dict(present_nfa_pair(c, rng), op="faop", kind=kind), rng))
+        d = with_pre(dict(present_nfa_pair(c, rng), op="faop", kind=kind), rng)
+        if rng.random() < 0.06:
+            alias_b(d, rng)
+        out.append(d)
     out.append(with_pre(dict(present_nfa_pair(c, rng, disjoint=True), op="faop", kind="uniondisj"), rng))
     for kind, src in (("reverse", "A"), ("unreach", "B"), ("useless", "A"), ("witness", "B")):
         d = {"id": c["id"], "src": c.get("src"), "op": "faop", "kind": kind,
